@@ -79,7 +79,7 @@ func genC10(t *rapid.T) c10Case {
 	n := rapid.IntRange(3, 8).Draw(t, "ntemplates")
 	for i := 0; i < n; i++ {
 		path := fmt.Sprintf("/t%d.jet", i)
-		kind := rapid.SampledFrom([]string{"ordinary", "failing", "failing", "probing", "probing", "embprobe", "returning", "nested-ranges"}).Draw(t, "kind")
+		kind := rapid.SampledFrom([]string{"ordinary", "failing", "failing", "probing", "probing", "embprobe", "returning", "nested-ranges", "trying"}).Draw(t, "kind")
 		var body []*mj.Node
 		rt := mj.Print(mj.Call("rtprobe"))
 		switch kind {
@@ -99,6 +99,10 @@ func genC10(t *rapid.T) c10Case {
 				inner = []*mj.Node{{K: "try", Body: g.path(1, inner), HasCatch: true, Catch: []*mj.Node{mj.Text("(caught)")}}}
 			}
 			body = g.path(depth, inner)
+		case "trying":
+			// try bodies that succeed: their buffered output is handed to the destination (which may fail half-way)
+			body = []*mj.Node{{K: "try", Body: []*mj.Node{mj.Text("tried:"), mj.Print(mj.Dot()), mj.Text(":0123456789abcdefghijklmnopqrstuvwxyz"),
+				{K: "try", Body: []*mj.Node{mj.Text("(inner "), mj.Print(mj.Var("xs")), mj.Text(")")}}}, HasCatch: rapid.Bool().Draw(t, "tryCatch"), Catch: []*mj.Node{mj.Text("(unreachable)")}}, mj.Text("after-try")}
 		case "returning":
 			// a {{return}} inside a range: the loop ends early (pooled cursors must survive that)
 			sub := []string{"xs", "m1", "sarr"}[rapid.IntRange(0, 2).Draw(t, "retsubject")]
@@ -397,7 +401,7 @@ func judgeC10(c c10Case) (v core.Verdict) {
 
 func TestC10(t *testing.T) {
 	core.Run(t, "C10",
-		"histories of 2-15 Execute calls (template, nil/string/map data, nil or non-nil VarMap) on one goroutine over a pool of 3-8 generated templates: ordinary, failing (failure of any of 24 kinds below range / if-let / block / yield-with-content / yielded block body / include with context / inner try, uncaught or caught) and probing (top-level yield content, '.', isset of names other templates declare, a range); oracle = every call reproduces byte for byte (errors: nil-ness and position) what the same call renders right after the object pools were emptied by two forced GCs, while the history runs with GOMAXPROCS(1) and GC off so the pooled Runtime is reused (pointer observed through a probe function); structural hash of every Template before/after; reference interpreter as second opinion; non-trivial = a failing execution followed by a probing one on the same Runtime pointer",
+		"histories of 2-15 Execute calls (template, nil/string/map data, nil or non-nil VarMap, destination that works or fails after 1/7/30 bytes) on one goroutine over a pool of 3-8 generated templates: ordinary, failing (failure of any of 24 kinds below range / if-let / block / yield-with-content / yielded block body / include with context / inner try, uncaught or caught), trying (successful try bodies, nested), returning from a range, nested ranges over the same value, and probing (top-level yield content, '.', isset of names other templates declare, a range); oracle = every call reproduces byte for byte (errors: nil-ness and position) what the same call renders right after the object pools were emptied by two forced GCs, while the history runs with GOMAXPROCS(1) and GC off so the pooled Runtime is reused (pointer observed through a probe function); structural hash of every Template before/after; reference interpreter as second opinion; non-trivial = a failing execution followed by a probing one on the same Runtime pointer",
 		genC10, judgeC10)
 }
 
